@@ -374,6 +374,32 @@ def checkPdp (gs : Nat) (rec : Rec) : Bool :=
   decide (gs / 2 = gs - (gs / 2 + 1)) &&   -- the two slices must have equal length (else torch raises)
   (List.range (gs / 2)).all (fun k => decide (vt (k + 1) < vt (k + 1 + gs / 2)))
 
+/-! ### action decoding of the bundled improvement policies
+
+The networks are uninterpreted: only the flat index the decoding strategy SELECTS enters (C10 proves that a
+selected index has a true mask entry).  What is modelled is how that index becomes a move. -/
+
+/-- flat index → pair; `divFirst` = `torch.cat((k // L, k % L))` in this order -/
+def decodePair (divFirst : Bool) (L k : Nat) : Nat × Nat := if divFirst then (k / L, k % L) else (k % L, k / L)
+
+/-- `DACTPolicy.forward`: the mask handed to the strategy is `env.get_mask(td)` with the previous action removed
+in both orientations (`last` = `td["action"]` when present); entry `[a, b]` sits at flat index `a * n + b` -/
+def dactMask (last : Option (Nat × Nat)) (a b : Nat) : Bool :=
+  mask2 a b && !(last == some (a, b) || last == some (b, a))
+
+def dactMaskFlat (n : Nat) (last : Option (Nat × Nat)) (k : Nat) : Bool := dactMask last (k / n) (k % n)
+
+def dactMove (divFirst : Bool) (n k : Nat) : Nat × Nat := decodePair divFirst n k
+
+/-- `N2SPolicy.forward`, removal stage: all pairs but the previously removed one -/
+def n2sRemovalMask (last : Option Nat) (pi : Nat) : Bool := !(last == some pi)
+
+/-- reinsertion stage: `env.get_mask(action_removal + off, td).view(batch, -1)` at flat index `k` -/
+def n2sReinsertMaskFlat (cmp : Cmp) (off gs : Nat) (vt : Nat → Nat) (pi k : Nat) : Bool :=
+  pdpMaskC cmp gs vt (pi + off) (k / gs) (k % gs)
+
+def n2sMove (divFirst : Bool) (gs pi k : Nat) : Nat × Nat × Nat := (pi, decodePair divFirst gs k)
+
 /-! ### the model instantiated with the tokens extracted from the current source -/
 
 namespace Code
@@ -393,6 +419,10 @@ def pdpParams : StepParams :=
   { bsfCmp := Params.improvePdpBsfCmp, whereNewFirst := Params.improvePdpBsfWhereNewFirst,
     rewardOldMinusNew := Params.improvePdpRewardOldMinusNew, bestCmp := Params.improvePdpBestCmp,
     bestThr := Params.improvePdpBestThr, vtStep := Params.improvePdpStepVt, vtReset := Params.improvePdpResetVt }
+
+def dactMove := Improve.dactMove Params.improveDactDecodeDivFirst
+def n2sMove := Improve.n2sMove Params.improveN2sDecodeDivFirst
+def n2sReinsertMaskFlat := Improve.n2sReinsertMaskFlat Params.improvePdpMaskCmp Params.improveN2sMaskPairOffset
 
 def checkKopt := checkKoptC Params.improveKoptCheckCmp
 def checkPdp := checkPdpC Params.improvePdpCheckCmp Params.improvePdpCheckPrecCmp Params.improvePdpCheckVt
